@@ -38,6 +38,13 @@ struct BlockNode<T> {
     next: AtomicPtr<BlockNode<T>>,
 }
 
+#[cfg(may_verif)]
+impl<T> Drop for BlockNode<T> {
+    fn drop(&mut self) {
+        crate::verif::free("SpscBlock", self as *const Self);
+    }
+}
+
 /// we don't implement the block node Drop trait
 /// the queue is responsible to drop all the items
 /// and would call its get() method for the dropping
@@ -45,6 +52,18 @@ impl<T> BlockNode<T> {
     /// create a new BlockNode with uninitialized data
     #[inline]
     fn new() -> *mut BlockNode<T> {
+        #[cfg(may_verif)]
+        return crate::verif::alloc(
+            "SpscBlock",
+            Box::into_raw(Box::new(BlockNode {
+                next: AtomicPtr::new(ptr::null_mut()),
+                data: [Slot::UNINIT; BLOCK_SIZE],
+            })),
+            0,
+            0,
+            0,
+        );
+        #[cfg(not(may_verif))]
         Box::into_raw(Box::new(BlockNode {
             next: AtomicPtr::new(ptr::null_mut()),
             data: [Slot::UNINIT; BLOCK_SIZE],
